@@ -379,7 +379,10 @@ def _do_rewrite(source: str, rewrite: _Rewrite, *, fix_function_name: str = "") 
             new_code = new_code.rstrip() + "\n"
             if isinstance(old, core.Range):
                 before = source[: old.end].expandtabs()
-                if before:
+                if old.start == old.end == len(source) and before.endswith("\n"):
+                    # Insertion after the last line, there is no indentation to continue from
+                    new_code = " " * getattr(new, "col_offset", 0) + new_code
+                elif before:
                     last_line = before.splitlines()[-1]
                     indent = len(last_line) - len(last_line.rstrip())
                     new_code += " " * indent
